@@ -31,9 +31,12 @@ PROPERTIES = {
         "kind": "relational",
         "translators": [translate_shared_state],
         "trusted": [
-            "translate/concurrency.py (token scan of singleton.hpp / managed_thread.hpp: declared type and memory "
-            "orders of the cell read by the unlocked check, base/member position of the activity flag relative to "
-            "std::thread, shape of instance() and of the thread function); its output is the model's configuration",
+            "translate/concurrency.py (own tokeniser, declaration scanner, statement/expression parser and path-wise "
+            "symbolic executor for singleton.hpp / managed_thread.hpp: shared objects are identified by declared type "
+            "and use, file-local helpers are inlined, constants and aliases resolved; the set of paths of instance(), "
+            "isActive() and the thread function is compared with the path sets of the shapes the model covers, anything "
+            "else raises); its output (memory orders, atomic?, separate owner?, what return dereferences, position of the "
+            "activity flag relative to std::thread) is the model's configuration",
             "hand-written interleaving model CelmaVerif/Model/Concurrency.lean (one micro step per shared access), tied "
             "by forced-schedule correspondence through the CELMA_VERIF_SYNC hooks (harness/concurrency.cpp, ASan+UBSan): "
             "same event trace, number of constructions, identities returned, isActive() samples",
